@@ -289,5 +289,22 @@ pub fn run_c13(out: &mut Out, tier: &str, seed: u64) {
             (Outcome::Ok(kp), Some(ws)) => { if kp.secret_key.as_array() != &ws || kp.public_key.as_array() != &sodium::scalarmult_base(&ws) { out.hit("pwhash.derive_keypair.differs-from-libsodium-construction", format!("hash_length {}", hl), json!({"op":"obj.PwHash.derive_keypair","pw":hx(&pw),"salt":hx(&salt),"hash_length":hl})); } }
             (o, _) => out.hit("pwhash.derive_keypair.fails", format!("hash_length {} ({})", hl, o.class()), json!({"hash_length":hl})),
         }
+    }    // ... and the whole salt the caller passes is used, whatever salt_length the config carries
+    {
+        use dryoc::classic::crypto_pwhash::{crypto_pwhash, PasswordHashAlgorithm};
+        let pw = rng.bytes(11);
+        for (sl_cfg, salt_len) in [(8usize, 16usize), (16, 32), (16, 24), (32, 16)] {
+            let salt = rng.bytes(salt_len);
+            let cfg = dryoc::pwhash::Config::interactive().with_opslimit(1).with_memlimit(32 * 1024).with_salt_length(sl_cfg);
+            out.search_evaluations += 2;
+            let kp = guard(|| dryoc::pwhash::VecPwHash::derive_keypair::<_, StackByteArray<32>, StackByteArray<32>>(&pw, salt.clone(), cfg.clone()));
+            let mut want = [0u8; 32];
+            let w = guard(|| crypto_pwhash(&mut want, &pw, &salt, 1, 32 * 1024, PasswordHashAlgorithm::Argon2id13));
+            if salt_len == 16 { if let Some(l) = sodium::pwhash(32, &pw, &salt[..16].try_into().unwrap(), 1, 32 * 1024, 2) { if w.is_ok() && l[..] != want[..] { out.hit("pwhash.classic.differs-from-libsodium", "derive_keypair reference".into(), json!({"pw":hx(&pw),"salt":hx(&salt)})); } } }
+            match (kp, w) {
+                (Outcome::Ok(kp), Outcome::Ok(())) => { if kp.secret_key.as_array() != &want || kp.public_key.as_array() != &sodium::scalarmult_base(&want) { out.hit("pwhash.derive_keypair.does-not-use-the-whole-salt", format!("salt of {} bytes, config salt_length {}", salt_len, sl_cfg), json!({"op":"obj.PwHash.derive_keypair","pw":hx(&pw),"salt":hx(&salt),"salt_length":sl_cfg})); } }
+                (o, _) => out.hit("pwhash.derive_keypair.fails", format!("salt of {} bytes ({})", salt_len, o.class()), json!({"salt_len":salt_len})),
+            }
+        }
     }
 }
